@@ -1,37 +1,2 @@
-(* Witnesses for the known findings of C15 (known_findings/C15.json).  The C15 model satisfies "a refusal changes nothing" by
-   construction; the implementation does not, because of the undo defects recorded under C13.  The witnesses are stated in the
-   mechanism-level session model of C13 (Model/C13Session.v, compared with the implementation on every C13 run): after the refused
-   delete() the set of pending writes differs, so the next commit changes the database. *)
-From Coq Require Import ZArith NArith List Bool.
-Import ListNotations.
-Require Import PonyV.Model.C13Heap PonyV.Model.C13Session PonyV.Model.C13Check PonyV.Model.C13Schemas.
-
-Definition mem_q (o : oid) (q : list (option oid)) : bool := existsb (fun x => match x with Some y => Nat.eqb y o | None => false end) q.
-
-(* parent 0 with a many-to-many partner 1 and a refusing dependent 2: the refused delete leaves the removal of the link (0, 1) pending *)
-Theorem C15_refuted_refused_delete_changes_links :
-  let s := state_after sch_S1 [(None, ONew 0 1 [(5, AInt 0)]); (None, ONew 2 1 [(1, AObjs [0])]); (None, ONew 5 1 [(1, AObj 0)]); (None, OCommit)] in
-  let out := step sch_S1 None s (ODelete 0) in
-  o_err out = Some EConstraint /\
-  g_bool s (LRemoved 0 7 1) = false /\ g_bool (o_state out) (LRemoved 0 7 1) = true /\ g_bool (o_state out) (LMod 0 7 0) = true.
-Proof. vm_compute. repeat split; reflexivity. Qed.
-Print Assumptions C15_refuted_refused_delete_changes_links.
-
-(* parent 0, cascading child 1, grandchild 2, refusing dependent 3: the refusal surfaces as an assertion failure and the grandchild
-   stays queued for deletion *)
-Theorem C15_refuted_refused_delete_after_nested_cascade :
-  let s := state_after sch_S1 [(None, ONew 0 1 [(5, AInt 0)]); (None, ONew 4 1 [(1, AObj 0)]); (None, ONew 6 1 [(1, AObj 1)]);
-                               (None, ONew 5 1 [(1, AObj 0)]); (None, OCommit)] in
-  let out := step sch_S1 None s (ODelete 0) in
-  o_err out = Some EAssert /\ g_status (o_state out) 2 = SMarked /\ mem_q 2 (g_queue (o_state out)) = true /\ mem_q 2 (g_queue s) = false.
-Proof. vm_compute. repeat split; reflexivity. Qed.
-Print Assumptions C15_refuted_refused_delete_after_nested_cascade.
-
-(* parent 0 with a refusing dependent 1 (saved) and a new cascading child 2: after the refused delete the child is still 'created'
-   but no longer queued for INSERT *)
-Theorem C15_refuted_refused_delete_drops_rows :
-  let s := state_after sch_S1 [(None, ONew 0 1 [(5, AInt 0)]); (None, ONew 5 1 [(1, AObj 0)]); (None, OCommit); (None, ONew 4 1 [(1, AObj 0)])] in
-  let out := step sch_S1 None s (ODelete 0) in
-  o_err out = Some EConstraint /\ g_status (o_state out) 2 = SCreated /\ mem_q 2 (g_queue s) = true /\ mem_q 2 (g_queue (o_state out)) = false.
-Proof. vm_compute. repeat split; reflexivity. Qed.
-Print Assumptions C15_refuted_refused_delete_drops_rows.
+(* C15: no open findings.  The three former ones (refused-delete-changes-links, refused-delete-after-nested-cascade-assertion,
+   refused-delete-drops-rows) were consequences of C13 code sites repaired in /repo; see known_findings/C15.json. *)
